@@ -8,6 +8,7 @@ import InovesaModel.Model.ElectricField
 import InovesaModel.Model.Options
 import InovesaModel.Model.MainProgram
 import InovesaModel.Model.DynamicRF
+import InovesaModel.Model.Impedance
 open Inovesa
 namespace Driver
 
@@ -502,6 +503,32 @@ def runRot (c : Case) : List String :=
     ["case " ++ c.id, hexLine "off" rfOff.toList, hexLine "off" drOff.toList] ++ lines ++ [hexLine "out" g.toList]
   | _, _ => ["case " ++ c.id, "undefined float-to-uint32"]
 
+/-- imp <id> <model> <n> ; extra = parameters ; aux = library values -/
+def runImp (c : Case) : List String :=
+  let model := c.head.getD 2 ""
+  let n := natArg c 3
+  let e := fun i => c.extra.getD i f32zero
+  let out (t : List (Cx Float32)) : List String :=
+    ["case " ++ c.id, s!"ints {n} {t.length}", hexLine "vals" (t.flatMap fun z => [z.1, z.2])]
+  match model with
+  | "const" => out (constImpedance n (e 1, e 2))
+  | "free" => out (freeSpaceCSR n (fun i => c.aux.getD i f32zero))
+  | "wall" =>
+    -- Z1 = (float)(sqrt(Z0*mu_r*f0/s/pi/c)*L/2/b) ; delta = (float)(f_max/f0/(n-1.0))
+    let f0 := (e 0).toFloat
+    let fmax := (e 1).toFloat
+    let l := (e 2).toFloat
+    let sc := (e 3).toFloat
+    let xi := (e 4).toFloat
+    let b := (e 5).toFloat
+    let z0 : Float := 376.730313461
+    let pi : Float := 3.14159265358979323846
+    let r : Float32 := (Float.sqrt (z0 * (1.0 + xi) * f0 / sc / pi / c_light) * l / 2.0 / b).toFloat32
+    let delta : Float32 := (fmax / f0 / (n.toFloat - 1.0)).toFloat32
+    out (resistiveWall n r (fun i => Float32.sqrt (Float32.ofNat i * delta)))
+  | "coll" => out (constImpedance n (c.aux.getD 0 f32zero, f32zero))
+  | _ => ["case " ++ c.id, "skip not-modelled"]
+
 def dispatch (c : Case) : List String :=
   match c.kind with
   | "kick" => runKick c
@@ -516,6 +543,7 @@ def dispatch (c : Case) : List String :=
   | "main" => runMainCase c
   | "dynrf" => runDynRF c
   | "rot" => runRot c
+  | "imp" => runImp c
   | "drift" => runDrift c
   | k => ["case " ++ c.id, "error unknown-kind " ++ k]
 
